@@ -1,5 +1,5 @@
 SPECIFICATION TraceSpec
 CONSTRAINT HighWater
-INVARIANTS ShapeInv SelfInv ConsistentInv
+INVARIANTS ShapeInv SelfInv ConsistentInv ValueInv
 POSTCONDITION TraceAccepted
 CHECK_DEADLOCK FALSE
